@@ -26,14 +26,14 @@ pub(super) broadcast axiom fn axiom_de_state(s: Seq<char>)
 //@ fn store::state_key
 //@ returns r
 //@ implicit [C06,C14]
-//@ ensures#state_key_of_this_hash [C14,C08]
+//@ ensures#state_key_of_this_hash [C14,C08,C01,C05,C09]
       key_view(r) =~= state_key_spec(*payment_hash)
 //@ end
 
 //@ fn store::attempt_key
 //@ returns r
 //@ implicit [C06,C14]
-//@ ensures#attempt_key_of_this_hash [C14]
+//@ ensures#attempt_key_of_this_hash [C14,C01,C05,C09]
       key_view(r) =~= attempt_key_spec(*payment_hash, attempt_id@)
 //@ end
 
